@@ -26,6 +26,7 @@ func runC18(p *eng.Prog, r *eng.Report, tier string) {
 	// self-presence with an unknown role is dropped and Join never returns)
 	c19EnumLoops(c, "C18.9", func(f *eng.Fn) bool { return strings.HasPrefix(f.Short, "muc.") })
 	staleNotification(c, "C18.10")
+	c18InvitationByName(c, "C18.17")
 	// C18.13 the table is keyed by address strings: the addresses built from a
 	// nickname are canonical (enforced bytes), so that the key under which a
 	// channel is registered is the key the room's presence is looked up with
@@ -496,4 +497,41 @@ func runC18(p *eng.Prog, r *eng.Report, tier string) {
 		}
 		c.r.Check("C18.12", jp, "requested address carries the new nickname", "K: under newNick != \"\" the presence's To is assigned addr.WithResource(newNick)", jp.Pos(), nnick >= 1, "no assignment of WithResource(newNick) to the presence's To under the Nick option: the join asks for the old nickname")
 	}
+}
+
+// c18InvitationByName (C18.17): "each mediated invitation is delivered exactly
+// once" - to the mediated callback. The handler for DIRECT invitations is
+// registered for the jabber:x:conference payload; it decodes an Invitation
+// from the element of that name and from no other child of the message (a
+// mediated invitation that also carries the direct form has the muc#user
+// payload first: decoding "the first child" delivers the mediated invitation
+// a second time, to the wrong callback). Every decode into an Invitation in
+// inviteHandler.HandleMessage is a DecodeElement whose start element is
+// established to be the direct payload's name.
+func c18InvitationByName(c *cx, id string) {
+	f := c.fn(id, "muc", "inviteHandler.HandleMessage")
+	if f == nil {
+		return
+	}
+	g := f.Graph()
+	n := 0
+	for _, cl := range f.Calls("encoding/xml.Decoder.Decode*") {
+		if len(cl.Args) == 0 || !strings.Contains(eng.TypeStr(f.Info().TypeOf(cl.Args[0])), "muc.Invitation") {
+			continue
+		}
+		n++
+		pt, _ := g.Where(cl)
+		okd, why := false, "the invitation is decoded with Decode: whatever element comes next is taken for the direct invitation"
+		if f.CalleeID(cl) == "encoding/xml.Decoder.DecodeElement" && len(cl.Args) == 2 {
+			okd, why = g.DominatedAny(pt, []string{"eq(local:*<encoding/xml.StartElement>.Name,var:muc.directName)", "eq(var:muc.directName,local:*<encoding/xml.StartElement>.Name)"})
+			if !okd {
+				// Space and Local tested separately
+				o1, _ := g.DominatedAny(pt, []string{"eq(local:*<encoding/xml.StartElement>.Name.Space,muc.NSConf)"})
+				o2, _ := g.DominatedAny(pt, []string{"eq(local:*<encoding/xml.StartElement>.Name.Local,\"x\")"})
+				okd = o1 && o2
+			}
+		}
+		c.r.Check(id, f, "direct invitation decoded from its own payload", "G: the Invitation handed to the direct-invitation callback is decoded from the child named {jabber:x:conference}x, wherever it is in the message", cl.Pos(), okd, why+": a mediated invitation that carries both payloads is delivered a second time")
+	}
+	c.r.Floor(id, "decodes of an Invitation in the direct-invitation handler", n, 1)
 }
